@@ -77,7 +77,9 @@ def analyse(ctx, traces, ntraces, tag=""):
             if ev["op"] == "TxLog" and ev["log"]:
                 log = []
                 for e in ev["log"]:
-                    if e["k"] == "closeCall":
+                    # the model describes calls that succeed: a call that reports an error ends the part of the log it is asked about
+                    # (the error itself is judged by the Api events)
+                    if e["k"] in ("closeCall", "flushErr") or (e["k"] == "writeRet" and e["v"] == 0):
                         break
                     log.append({"op": e["k"], "v": e["v"]})
                 if log and log[0]["op"] == "writeCall" and ev.get("maxframe") == 4:
